@@ -687,6 +687,61 @@ func runLifeCase(c cfg, seed uint64, o lifeOpts, keys map[string]struct{}) (eval
 		}
 	}
 	if o.moment != "connect-storm" && o.moment != "traffic" {
+		// EventLoop.Execute: every accepted runnable runs exactly once, on the goroutine of the loop it was given to
+		type exRec struct {
+			runs atomic.Int32
+			gid  atomic.Int64
+		}
+		var recs []*exRec
+		var loopsSeen []gnet.EventLoop
+		seenLoop := map[gnet.EventLoop]bool{}
+		for _, cs := range mon.snapshot() {
+			if atomic.LoadInt32(&cs.state) == 1 && !seenLoop[cs.loop] {
+				seenLoop[cs.loop] = true
+				loopsSeen = append(loopsSeen, cs.loop)
+			}
+		}
+		accepted := 0
+		for _, lp := range loopsSeen {
+			for k := 0; k < 16; k++ {
+				rec := &exRec{}
+				lp := lp
+				err := lp.Execute(context.Background(), gnet.RunnableFunc(func(ctx context.Context) error {
+					rec.runs.Add(1)
+					rec.gid.Store(vlib.GoID())
+					if g, ok := mon.loopG.Load(lp); ok && g.(int64) != vlib.GoID() {
+						mon.violate("C05 Execute runnable ran off its loop's goroutine", fmt.Sprintf("loop goroutine %d, runnable on %d", g.(int64), vlib.GoID()))
+					}
+					return nil
+				}))
+				if err == nil {
+					recs = append(recs, rec)
+					accepted++
+				}
+			}
+		}
+		if accepted > 0 {
+			ok, v := waitCond(4*time.Second, func() bool {
+				for _, rc := range recs {
+					if rc.runs.Load() < 1 {
+						return false
+					}
+				}
+				return true
+			})
+			time.Sleep(time.Millisecond)
+			for _, rc := range recs {
+				if n := rc.runs.Load(); n > 1 || (n == 0 && verdictStuck(v)) {
+					mon.violate("C03 Execute runnable not run exactly once", fmt.Sprintf("a runnable accepted by EventLoop.Execute ran %d times (%s)", n, v))
+					break
+				}
+			}
+			if !ok && !verdictStuck(v) {
+				res.Inconc("life %s: Execute runnables pending: %s", c, v)
+			}
+			res.Obs("execute_runnables_checked", int64(accepted))
+			s.key(c.class() + "|execute-exactly-once")
+		}
 		// quiescent point: CountConnections == opened - closed
 		if ok, _ := waitCond(3*time.Second, func() bool {
 			return int64(life.eng.CountConnections()) == mon.opened.Load()-mon.closed.Load()
